@@ -49,7 +49,10 @@ var sizes = []int{0, 0, 1, 2, 100, 4096, 65536, 65537, 200000, 200000, 1 << 20}
 
 func drawSide(rt *rapid.T, label string, allowHold bool) Side {
 	s := Side{Send: rapid.SampledFrom(sizes).Draw(rt, label+".send")}
-	chunks := []int{7, 1024, 32768, 1 << 20}
+	chunks := []int{1024, 32768, 1 << 20}
+	if s.Send <= 65537 {
+		chunks = append(chunks, 7)
+	}
 	if s.Send <= 4096 {
 		chunks = append(chunks, 1)
 	}
@@ -225,7 +228,7 @@ func runFwd(c *FwdCase) (violation, timing, trouble string, st fwdStats) {
 	ctx, cancel := context.WithCancel(context.Background())
 	defer cancel()
 	var cancelOnce sync.Once
-	deadline := time.Now().Add(ioBound)
+	deadline := time.Now().Add(currentIOBound())
 	var wg sync.WaitGroup
 	for i, l := range links {
 		go func() {
@@ -342,9 +345,19 @@ var frozen struct {
 }
 
 func verdictT(run func() (violation, timing, trouble string)) (violation, inconclusive, trouble string, timed bool) {
+	defer func() {
+		if violation != "" {
+			violationSeen.Store(true)
+		}
+	}()
 	var last string
 	for i := 0; i < attempts; i++ {
 		v, tm, tr := run()
+		if violationSeen.Load() && v == "" && tr == "" {
+			// Shrinking: only schedule-independent reproductions count, and
+			// they are looked for with short deadlines.
+			return "", "", "", false
+		}
 		if tr != "" {
 			return "", "", tr, false
 		}
@@ -364,6 +377,18 @@ func verdictT(run func() (violation, timing, trouble string)) (violation, inconc
 
 var aborted bool
 
+// violationSeen is set once a violation has been established in this
+// process: what follows is rapid's shrinking, which uses short deadlines and
+// ignores complaints about time (see verdictT).
+var violationSeen atomic.Bool
+
+func currentIOBound() time.Duration {
+	if violationSeen.Load() {
+		return 5 * time.Second
+	}
+	return ioBound
+}
+
 func abort(format string, args ...any) {
 	if !aborted {
 		ev.Inconclusive("C33 harness trouble: "+format, args...)
@@ -377,7 +402,9 @@ func TestForwardAndClose(t *testing.T) {
 	}
 	rec := ev.New(t, prop, "forward-and-close",
 		"rapid: 1..4 concurrent forwarding.ForwardAndClose calls between Unix socket pairs (real CloseWrite) sharing one context; each application end sends 0 B..1 MiB in drawn chunk sizes, starts at once or only after the other end's half-close arrived, and ends by half-close / holding the connection until EOF / abrupt close after a drawn prefix; optionally the context is cancelled once a drawn end has received a drawn number of bytes. Oracle: every end receives a prefix of what the other end wrote, the complete payload followed by a clean EOF when neither end aborted (and when the aborting end's peer sent nothing), all ends finish within 30 s (re-executed 3 times before reporting), ForwardAndClose returns and both its connections are closed, each auditor total lies between bytes received and bytes sent and equals bytes received for ends that read to the end. Non-trivial: an end answers only after the forwarded half-close, or cancellation hits after data arrived")
-	ev.Check(t, rec, 250, 4000, func(rt *rapid.T) {
+	violationSeen.Store(false)
+	frozen.key = ""
+	ev.Check(t, rec, 250, 3000, func(rt *rapid.T) {
 		c := &FwdCase{}
 		interrupted := rapid.IntRange(0, 3).Draw(rt, "cancel") == 0
 		c.Conns = drawConns(rt, interrupted, 4)
@@ -531,7 +558,7 @@ func openPairs(n int, sourcePath string, listener *net.UnixListener) ([]*pair, e
 // trigger is reached.
 func runPairs(conns []Conn, pairs []*pair, trig *Trigger, fire func()) {
 	var once sync.Once
-	deadline := time.Now().Add(ioBound)
+	deadline := time.Now().Add(currentIOBound())
 	var wg sync.WaitGroup
 	for i, p := range pairs {
 		progress := func(side string) func(int) {
@@ -806,7 +833,9 @@ func TestSessions(t *testing.T) {
 	rec := ev.New(t, prop, "sessions",
 		"rapid: a real forwarding.Manager session (local protocol handler, lazily listening Unix-socket source, Unix-socket destination served by the harness) forwards 1..5 concurrent connections with the same end scripts as the ForwardAndClose part; optionally the session is paused or terminated once a drawn end has received a drawn number of bytes; a paused session is resumed and forwards one more request/response connection. Oracle: the per-connection oracle; without an event the session stays in forwarding status and List eventually reports open 0, total = connections made, outbound/inbound totals equal to the bytes the destination/source ends received (bounded by bytes sent for ends that aborted); Pause/Terminate return, end every connection, leave the session paused+disconnected resp. unlisted, and the source socket stops accepting; after resume the statistics start over and count exactly the new connection. Non-trivial: as in the ForwardAndClose part (response after forwarded half-close, or event after data arrived)")
 	env := newSessionEnv(t)
-	ev.Check(t, rec, 120, 2000, func(rt *rapid.T) {
+	violationSeen.Store(false)
+	frozen.key = ""
+	ev.Check(t, rec, 120, 1500, func(rt *rapid.T) {
 		c := &SessionCase{Event: rapid.SampledFrom([]string{"none", "none", "none", "pause", "terminate"}).Draw(rt, "event")}
 		c.Conns = drawConns(rt, c.Event != "none", 5)
 		if c.Event != "none" {
